@@ -8,10 +8,14 @@
 (*   EnqueueF    EnqueueEvent: append to the batch of the event's          *)
 (*               (host,key,dataset), start a batch clock on the first      *)
 (*               event, cut the batch at MaxBatch, Up the gauge            *)
-(*   AdvanceF    the clock moves one unit; the stale ticker (period        *)
-(*               BatchTimeout/4 = Sub units) may deliver a tick            *)
-(*   StalePassF  one iteration of dispatchStaleBatches: cut every batch    *)
-(*               whose first event is >= BatchTimeout old                  *)
+(*   AdvanceF    the clock moves one unit; the stale checker may run       *)
+(*   CutF        one iteration of dispatchStaleBatches.  The statement     *)
+(*               only bounds the latency (<= 1.25 x BatchTimeout), it does *)
+(*               not fix how often the checker runs: a batch MAY be cut at *)
+(*               any grid instant at which it is >= BatchTimeout old and   *)
+(*               MUST be cut by the one at which it is 1.25 x BatchTimeout *)
+(*               old (the code: first BatchTimeout/4 tick at or after      *)
+(*               BatchTimeout; any check period <= BatchTimeout/4 fits)    *)
 (*   PackF       head of the sendBatch loop: greedy in-order packing of    *)
 (*               the remaining events into one request body, dropping      *)
 (*               events that alone exceed EventMax, then the first attempt *)
@@ -45,7 +49,7 @@ CONSTANTS Dests,       \* subset of {"A","B","C","D"}: destinations in play
           EventMax,    \* apiMaxEventSize  (1000000)
           BodyMax,     \* apiMaxBatchSize  (5000000)
           MaxBatch,    \* MaxBatchSize
-          Sub,         \* clock units per stale-ticker period; BatchTimeout = 4*Sub units
+          Sub,         \* grid resolution: BatchTimeout = 4*Sub clock units
           MaxEvents,   \* bound: events enqueued in one run
           MaxNow,      \* bound: horizon in units
           MaxFaults,   \* bound: server answers other than plain success
@@ -111,8 +115,7 @@ Init == /\ s = [ evs   |-> <<>>,                       \* [k, sz] of event i (en
                  out   |-> <<>>,                       \* outcome of event i
                  pend  |-> [k \in Dests |-> EmptyBatch],
                  now   |-> 0,
-                 tickDue |-> FALSE,                    \* a stale tick is waiting to be processed
-                 stale |-> 0,                          \* stale passes so far
+                 tickDue |-> FALSE,                    \* (interleaved model) the stale checker has not yet looked at this instant
                  jobs  |-> {},                         \* running sendBatch calls
                  c     |-> [r20x |-> 0, respErr |-> 0, sendErr |-> 0, retries |-> 0, ups |-> 0, downs |-> 0],
                  errLog |-> {},                        \* events named in an error log line
@@ -135,16 +138,18 @@ EnqueueF(t, k, z) ==
        ELSE t1
 
 \* ---- clock and stale dispatch -----------------------------------------
-AdvanceF(t) == [t EXCEPT !.now = @ + 1,
-                         !.tickDue = (t.stop = "no" /\ (t.now + 1) % Sub = 0)]
+AdvanceF(t) == [t EXCEPT !.now = @ + 1, !.tickDue = (t.stop = "no")]
 
-StalePassF(t) ==
-  LET due == {k \in Dests : t.pend[k].ids # <<>> /\ t.now - t.pend[k].start >= TU}
-      ages == {t.now - t.pend[k].start : k \in due}
-  IN [t EXCEPT !.pend = [k \in Dests |-> IF k \in due THEN EmptyBatch ELSE @[k]],
-               !.jobs = @ \cup {NewJob(t, k) : k \in due},
+Age(t, k)      == t.now - t.pend[k].start
+Eligible(t)    == {k \in Dests : t.pend[k].ids # <<>> /\ Age(t, k) >= TU}
+MustCut(t)     == {k \in Eligible(t) : Age(t, k) >= Limit}
+CutSets(t)     == {C \in SUBSET Eligible(t) : MustCut(t) \subseteq C}
+CutF(t, C) ==
+  LET ages == {Age(t, k) : k \in C}
+  IN [t EXCEPT !.pend = [k \in Dests |-> IF k \in C THEN EmptyBatch ELSE @[k]],
+               !.jobs = @ \cup {NewJob(t, k) : k \in C},
                !.maxCutAge = IF ages = {} THEN @ ELSE Max2(@, CHOOSE a \in ages : \A b \in ages : a >= b),
-               !.tickDue = FALSE, !.stale = @ + 1]
+               !.tickDue = FALSE]
 
 \* ---- Stop ----------------------------------------------------------------
 StopBeginF(t) ==
@@ -215,14 +220,20 @@ WakeCode(t, j) == IF j.try = 1 THEN Reattempt(t, j, j.why) ELSE HttpError(t, j)
 \* ---- conventions the statement leaves open (Loose) -----------------------
 \* after a licensed answer the batch may or may not be retried, with or without
 \* sleeping; after the second attempt the outcome may come before or after a sleep
+Sleep(t, j, b, d) == Replace(t, j, [j EXCEPT !.pc = "sleep", !.wake = t.now + d, !.why = b])
 RespondSet(t, j, b) ==
   IF ~Loose THEN {RespondCode(t, j, b)}
   ELSE {RespondCode(t, j, b)}
+       \* first attempt, licensed throttle: retry (after the sleep the code computes, or at once
+       \* when it computes none) or give up
        \cup (IF b \in ThrottleB /\ j.try = 1 /\ Licensed(b)
-               THEN {HttpError(t, j), Reattempt(t, j, b),
-                     Replace(t, j, [j EXCEPT !.pc = "sleep", !.wake = t.now + 1, !.why = b])}
+               THEN {HttpError(t, j), IF CodeRetries(b) THEN Sleep(t, j, b, Delay(b)) ELSE Reattempt(t, j, b)}
                ELSE {})
-       \cup (IF b \in ThrottleB /\ j.try = 2 THEN {HttpError(t, j)} ELSE {})
+       \* second attempt throttled: outcome at once or after another sleep
+       \cup (IF b \in ThrottleB /\ j.try = 2
+               THEN {HttpError(t, j)} \cup (IF CodeRetries(b) THEN {Sleep(t, j, b, Delay(b))} ELSE {})
+               ELSE {})
+       \* first attempt timed out: retry or fail the batch
        \cup (IF b \in TimeoutB /\ j.try = 1 THEN {Effect(t, j, {}, {}, Range(j.sub), 1)} ELSE {})
 
 \* ---- run to quiescence ---------------------------------------------------
@@ -230,14 +241,13 @@ Packing(t)  == {j \in t.jobs : j.pc = "pack"}
 Waking(t)   == {j \in t.jobs : j.pc = "sleep" /\ j.wake <= t.now}
 ById(J)     == CHOOSE j \in J : \A i \in J : j.id <= i.id
 RECURSIVE Close(_)
-Close(t) == IF t.tickDue THEN Close(StalePassF(t))
-            ELSE IF Packing(t) # {} THEN Close(PackF(t, ById(Packing(t))))
+Close(t) == IF Packing(t) # {} THEN Close(PackF(t, ById(Packing(t))))
             ELSE IF Waking(t) # {} THEN Close(WakeCode(t, ById(Waking(t))))
             ELSE IF t.stop = "stopping" /\ t.jobs = {} THEN [t EXCEPT !.stop = "stopped"]
             ELSE t
 
 \* what the harness waits for before it reads the projection
-W(t) == [reqs |-> Cardinality(t.reqs), downs |-> t.c.downs, stale |-> t.stale,
+W(t) == [pendSet |-> UNION {Range(t.pend[k].ids) : k \in Dests}, reqs |-> Cardinality(t.reqs), downs |-> t.c.downs,
          sleepers |-> Cardinality({j \in t.jobs : j.pc = "sleep"}), stopped |-> t.stop = "stopped"]
 
 Step(T, a) == \E t \in T : s' = t /\ act' = a @@ [wait |-> {W(u) : u \in T}]
@@ -252,7 +262,8 @@ CoarseNext ==
        /\ s.stop = "no" /\ Len(s.evs) < MaxEvents
        /\ Step({Close(EnqueueF(s, k, z))}, [name |-> "Enqueue", k |-> k, sz |-> z])
   \/ /\ TickOK(s)
-     /\ Step({Close(AdvanceF(s))}, [name |-> "Tick"])
+     /\ LET a == AdvanceF(s)
+        IN Step({Close(CutF(a, C)) : C \in (IF s.stop = "no" THEN CutSets(a) ELSE {{}})}, [name |-> "Tick"])
   \/ \E j \in Sent(s), b \in Behaviours :
        /\ FaultOK(s, b)
        /\ Step({Close(t) : t \in RespondSet(CountFault(s, b), j, b)}, [name |-> "Respond", m |-> j.sub[1], b |-> b])
@@ -263,12 +274,13 @@ FineNext ==
   \/ \E k \in Dests, z \in Sizes :
        /\ s.stop = "no" /\ Len(s.evs) < MaxEvents
        /\ s' = EnqueueF(s, k, z) /\ act' = [name |-> "Enqueue"]
-  \* assumption: the stale goroutine handles a tick, and a goroutine whose sleep is over
-  \* resumes, before the clock moves on
+  \* assumption: the stale checker looks at every grid instant, and a goroutine whose sleep
+  \* is over resumes, before the clock moves on
   \/ /\ TickOK(s) /\ ~s.tickDue /\ Waking(s) = {}
      /\ s' = AdvanceF(s) /\ act' = [name |-> "Advance"]
   \/ /\ s.tickDue
-     /\ s' = StalePassF(s) /\ act' = [name |-> "StalePass"]
+     /\ \E C \in CutSets(s) : s' = CutF(s, C)
+     /\ act' = [name |-> "StalePass"]
   \/ \E j \in Packing(s) : s' = PackF(s, j) /\ act' = [name |-> "Pack"]
   \/ \E j \in Sent(s), b \in Behaviours :
        /\ FaultOK(s, b)
@@ -360,7 +372,7 @@ Abs == [ now      |-> s.now,
          stopped  |-> s.stop = "stopped" ]
 \* hidden part of the state (identity of a graph node); sets are rendered through functions so
 \* that the JSON text of a state is canonical
-Hid == [ evs |-> s.evs, out |-> s.out, pend |-> s.pend, faults |-> s.faults, stale |-> s.stale,
+Hid == [ evs |-> s.evs, out |-> s.out, pend |-> s.pend, faults |-> s.faults,
          tickDue |-> s.tickDue, stop |-> s.stop, maxCutAge |-> s.maxCutAge,
          jobs |-> [i \in 1..MaxEvents |-> {j \in s.jobs : j.id = i}],
          reqs |-> [i \in 1..MaxEvents |-> [y \in 1..2 |-> {r \in s.reqs : r.tag = i /\ r.try = y}]] ]
